@@ -100,6 +100,11 @@ func BuildQuerySQL(db *gorm.DB) {
 		fromClause := clause.From{}
 		if v, ok := db.Statement.Clauses["FROM"].Expression.(clause.From); ok {
 			fromClause = v
+			if len(db.Statement.Joins) > 0 {
+				// the joins of this statement are appended below: not into a list given by the caller, which the
+				// statements derived from the same handle share
+				fromClause.Joins = append(make([]clause.Join, 0, len(v.Joins)+len(db.Statement.Joins)), v.Joins...)
+			}
 		}
 
 		if len(db.Statement.Joins) != 0 || len(fromClause.Joins) != 0 {
